@@ -388,6 +388,43 @@ def CellsShadowed (aord : List String) (g : Env) (lv : List Level) (k : String) 
   | inner :: _ => inner.sp.cells.contains k = true ∧
       ((argOf aord lv k).isSome ∨ (get (staticRefs g inner.sp) k).isSome)
 
+/-! ## 2b. object-valued references in an item: the base's object or the item's counterpart
+
+A reference whose value is a cells or a space is copied into a new item `P[a]` by the generated
+`_mx_copy_refs` (ParentTranslator.ref_copies) in one of two ways, chosen by the reference MODE through an
+if/elif chain that is extracted into `Generated.exportRefCopyRule`: `"base"` - `self.k = base.k`, the
+item gets the object the base space has; `"inside"` - the item's counterpart of the object
+(`P[a].Ch` for `P.Ch`) if the object lies inside the base root, else the base's object.  Model-level
+references have no mode (`"none"`).  modelx (`DynBaseRefDict.wrap_impl`, C10): relative references are
+re-bound, auto references are re-bound iff the target lies inside the copied tree, absolute and
+model-level ones never.  What "the base" is for an item below an item is NOT modelled here (known
+finding C15-nested-item-auto-ref). -/
+
+inductive Binding where
+  | baseObject        -- the object the base space's reference denotes
+  | itemCounterpart   -- the same position inside the new item
+  deriving DecidableEq, Repr
+
+/-- the action the chain selects for a mode: first entry for the mode, or for `"*"` (an `else` branch) -/
+def refCopyAction : List (String × String) → String → Option String
+  | [], _ => none
+  | (k, a) :: rest, mode => if k = mode || k = "*" then some a else refCopyAction rest mode
+
+/-- what `_mx_copy_refs` binds -/
+def copiedBinding (rule : List (String × String)) (mode : String) (inside : Bool) : Option Binding :=
+  match refCopyAction rule mode with
+  | some a =>
+    if a = "base" then some .baseObject
+    else if a = "inside" then some (if inside then .itemCounterpart else .baseObject)
+    else none
+  | none => none
+
+/-- modelx: only relative references, and auto references (which are relative exactly when the target is
+inside the tree), are re-bound; a relative reference to an object outside the tree cannot exist in an item
+(modelx refuses to create the item), so `inside` decides for both -/
+def mxBinding (mode : String) (inside : Bool) : Binding :=
+  if (mode = "auto" || mode = "relative") && inside then .itemCounterpart else .baseObject
+
 /-! ## 3. how a reference value is written -/
 
 /-- what `ref_value` looks at, and what identifies the value afterwards -/
